@@ -96,7 +96,9 @@ CHECKS["C16"] = dict(
     text="Theorems: a point within R/2 of g is strictly closer to g than to any site beyond R (all positions); Cauchy-Schwarz; on a segment the squared distance to g is "
          "bounded by the end points' (the step behind 'farthest point is a vertex'). Tie: reported radius vs exact 2 sqrt(max vertex distance^2) of the model cell, >= twice the "
          "distance to every implementation vertex; generators appended beyond the safety ball (all periodic images outside) leave the cell unchanged.",
-    note="Partial: 'the farthest point of the maintained polytope is one of the maintained vertices' (VerticesSpan) is not proved for d = 2, 3.", design="5 C16")
+    note="Also proved: every point of the hull of the vertices of a cell is within the largest vertex distance (half the reported radius) of the generator "
+         "(C16_hull_in_ball, C16_hull_within_max_radius), and no site beyond the safety radius cuts that hull (used in C01's converse). Partial: that the maintained "
+         "polytope IS the hull of the maintained vertices (VerticesSpan) is not proved for d = 2, 3.", design="5 C16")
 
 CHECKS["C17"] = dict(
     technique="Coq proof by induction on the heap fuel (best-first search over any well-formed tree, any admissible pop) + differential run on the hooked neighbour stream and the dumped R-tree",
